@@ -72,6 +72,8 @@ VARIANTS = {
     "sources": ["@half1"], "targets": ["@half2"], "nsi": [False],
     "method": ["ECA"], "symmetrization": ["mean", "max", "min"],
     "window_type": ["retarded"],
+    "tau_max": [2], "estimator": ["binning", "gauss"], "lag_mode": ["all"],
+    "cond_mode": ["mit"],
 }
 
 
